@@ -1,6 +1,9 @@
 #!/usr/bin/env python3
 """LLSE spike: a small LLVM-IR (text) symbolic executor. Concrete heap, symbolic scalars (z3)."""
 import re, sys, struct, math, time, bisect, ctypes
+# transparent huge pages make every copy-on-write fault after fork() copy 2 MB: switch them off for this process tree
+try: ctypes.CDLL(None).prctl(41, 1, 0, 0, 0)   # PR_SET_THP_DISABLE
+except Exception: pass
 import z3
 
 sys.setrecursionlimit(100000)
@@ -392,6 +395,16 @@ class Memory:
         s.next += max(size, 1) + 16
         s.bases.append(o.base); s.objs.append(o)
         return o
+    def clone(s):
+        m = Memory.__new__(Memory)
+        m.bases = list(s.bases); m.next = s.next; m.heap_next = s.heap_next
+        objs = []
+        for o in s.objs:
+            c = Obj(); c.base = o.base; c.size = o.size; c.data = bytearray(o.data); c.sym = dict(o.sym) if o.sym else None
+            c.live = o.live; c.kind = o.kind
+            objs.append(c)
+        m.objs = objs
+        return m
     def find(s, addr):
         i = bisect.bisect_right(s.bases, addr) - 1
         if i < 0: raise MemError('bad pointer 0x%x' % addr)
